@@ -126,10 +126,10 @@ def takeUntil (ks : List Kind) (ts : List Tok) : List Tok × List Tok × Option 
 def headRng (ts : List Tok) : Range := match ts with | t :: _ => t.rng | [] => Range.zero
 
 def sliceNode (body : List Tok) : Tree :=
-  .node "#slice" "" (Range.span (headRng body) (match body.getLast? with | some t => t.rng | none => Range.zero)) [] []
+  .node "#slice" "" (Range.span (headRng body) (match body.getLast? with | some t => t.rng | none => Range.zero)) Range.zero [] []
 
 def caught (e : List Tok) : Tree :=
-  .node "#caught" "" (headRng e) [if e.isEmpty then "eof" else "tok"] []
+  .node "#caught" "" (headRng e) Range.zero [if e.isEmpty then "eof" else "tok"] []
 
 /-- resume position and diagnostic of a failed item -/
 def recoverStep (m : RecMode) (ts e : List Tok) (msg : String) : List Tok × List Diag :=
